@@ -61,6 +61,13 @@ if os.path.exists(res):
         txt += ' Not quiet: ' + '; '.join(bad)
 block('BENIGN', txt)
 
+rows = ['| property | functions under contract | obligations | discharged | bounded (not counted) | open findings | path VCs | wall (quick) |', '|---|---|---|---|---|---|---|---|']
+for f in sorted(glob.glob(root + '/evidence/C*.json')):
+    ev = json.load(open(f))
+    c = ev['coverage']
+    rows.append('| %s | %d | %d | %d | %d | %d | %d | %.0f s |' % (ev['property_id'], len(c.get('functions_under_contract', [])), c.get('obligations', 0), c.get('discharged', 0), len(c.get('bounded') or []), len(c.get('known_findings_open') or []), c.get('path_vcs', 0), ev.get('wall_s', 0)))
+block('STATUS', '\n'.join(rows))
+
 nr = json.load(open(root + '/notreached.json'))
 block('NOTREACHED', '\n'.join('* **%s** %s' % (k, v) for k, v in sorted(nr.items())))
 open(root + '/DESIGN.md', 'w').write(s)
